@@ -1,0 +1,375 @@
+//go:build verif
+
+package vgirpc
+
+// verif_c20.go — verification hooks for property C20 (correlation and
+// capability headers). Add-only; compiled only with -tags verif.
+//
+// Exports (a) resolveRequestID, (b) one configuration routine shared by the
+// constants dumper and the correspondence harness, and (c) the constants the
+// Coq model is stated over: header names, and — for 212 points of the 14-toggle
+// feature lattice (every configuration with at most two toggles on, and every
+// one with at most two off) — the set of correlation / capability / rejection /
+// session headers the real functions write and the Access-Control-Expose-Headers
+// list the real addCorsHeaders produces, as bit masks over a name universe.
+// (The whole lattice is decided in Coq on the model; a full 2^14-row table costs
+// ~30 s of Coq parsing per build, so the make-time tie is on these points and
+// the run-time tie on randomly drawn configurations in the harness.)
+
+import (
+	"errors"
+	"io"
+	"log/slog"
+	"net/http"
+	"net/http/httptest"
+	"sort"
+	"strings"
+	"time"
+
+	"github.com/apache/arrow-go/v18/arrow"
+)
+
+// VerifResolveRequestID runs resolveRequestID on a request carrying exactly the
+// given X-Request-ID header values (none = header absent).
+func VerifResolveRequestID(values []string) string {
+	r := httptest.NewRequest("GET", "/health", nil)
+	for _, v := range values {
+		r.Header.Add(requestIDHeader, v)
+	}
+	return resolveRequestID(r)
+}
+
+// VerifC20Toggles is one point of the feature lattice. Bit i of a lattice mask
+// is field i in declaration order.
+type VerifC20Toggles struct {
+	Compress   bool // response compression enabled (default level) vs SetCompressionLevel(0)
+	Ext        bool // external storage configured on the Server
+	MaxReq     bool // SetMaxRequestBytes(VerifC20MaxReq)
+	MaxResp    bool // SetMaxResponseBytes
+	MaxExt     bool // SetMaxExternalizedResponseBytes
+	Upload     bool // SetUploadURLProvider
+	MaxUpload  bool // SetMaxUploadBytes
+	Proof      bool // SetProxyProofRequired(true)
+	ExtraProxy bool // SetProxyAuthHeaders("X-Forwarded-User")
+	Introspect bool // EnableTokenIntrospection
+	Sticky     bool // EnableSticky
+	Echo       bool // SetStickyEchoHeaders(non-empty)
+	OAuth      bool // SetOAuthResourceMetadata
+	Auth       bool // SetAuthenticate(non-nil)
+}
+
+// VerifC20NumToggles is the lattice dimension.
+const VerifC20NumToggles = 14
+
+// VerifC20MaxReq is the max_request_bytes value used when MaxReq is on.
+const VerifC20MaxReq = 4096
+
+// VerifC20IntrospectorPrincipal is the one principal allowed to introspect.
+const VerifC20IntrospectorPrincipal = "introspector"
+
+// VerifC20FromMask decodes a lattice mask.
+func VerifC20FromMask(m uint32) VerifC20Toggles {
+	b := func(i uint) bool { return m&(1<<i) != 0 }
+	return VerifC20Toggles{b(0), b(1), b(2), b(3), b(4), b(5), b(6), b(7), b(8), b(9), b(10), b(11), b(12), b(13)}
+}
+
+type verifC20Storage struct{}
+
+func (verifC20Storage) Upload([]byte, *arrow.Schema, string) (string, error) {
+	return "https://storage.invalid/x", nil
+}
+
+type verifC20Uploader struct{}
+
+func (verifC20Uploader) GenerateUploadURL(*arrow.Schema) (UploadURL, error) {
+	return UploadURL{UploadURL: "https://storage.invalid/put", DownloadURL: "https://storage.invalid/get",
+		ExpiresAt: time.Unix(2000000000, 0).UTC()}, nil
+}
+
+// VerifC20Apply configures srv/h for one lattice point through the public
+// setters. echo is used when t.Echo (nil = the probe name); auth is installed
+// when t.Auth (nil = accept everyone as an authenticated non-introspector);
+// resolver backs token introspection (nil = always unavailable).
+func VerifC20Apply(srv *Server, h *HttpServer, t VerifC20Toggles, echo map[string]string,
+	auth AuthenticateFunc, resolver TokenResolver) error {
+	if t.Upload {
+		h.SetUploadURLProvider(verifC20Uploader{}) // rebuilds the mux: must precede EnableSticky
+	}
+	if !t.Compress {
+		if err := h.SetCompressionLevel(0); err != nil {
+			return err
+		}
+	}
+	if t.Ext {
+		srv.SetExternalLocation(DefaultExternalLocationConfig(verifC20Storage{}))
+	}
+	if t.MaxReq {
+		h.SetMaxRequestBytes(VerifC20MaxReq)
+	}
+	if t.MaxResp {
+		h.SetMaxResponseBytes(1 << 30)
+	}
+	if t.MaxExt {
+		h.SetMaxExternalizedResponseBytes(1 << 30)
+	}
+	if t.MaxUpload {
+		h.SetMaxUploadBytes(1 << 20)
+	}
+	if t.Proof {
+		h.SetProxyProofRequired(true)
+	}
+	if t.ExtraProxy {
+		h.SetProxyAuthHeaders("X-Forwarded-User")
+	}
+	if t.Introspect {
+		if resolver == nil {
+			resolver = func(string) (TokenIdentity, bool, error) {
+				return TokenIdentity{}, false, errors.New("resolver down")
+			}
+		}
+		if err := h.EnableTokenIntrospection(TokenIntrospectionConfig{Resolver: resolver,
+			Principals: []string{VerifC20IntrospectorPrincipal}, RateLimitPerSecond: 1000000}); err != nil {
+			return err
+		}
+	}
+	if t.Sticky {
+		h.EnableSticky(0)
+	}
+	if t.Echo {
+		if echo == nil {
+			echo = map[string]string{"Probe-Echo": "v"}
+		}
+		h.SetStickyEchoHeaders(echo)
+	}
+	if t.OAuth {
+		if err := h.SetOAuthResourceMetadata(&OAuthResourceMetadata{Resource: "https://rpc.example.com/vgi",
+			AuthorizationServers: []string{"https://idp.example.com"}, ClientID: "cid"}); err != nil {
+			return err
+		}
+	}
+	if t.Auth {
+		if auth == nil {
+			auth = func(*http.Request) (*AuthContext, error) {
+				return &AuthContext{Domain: "verif", Authenticated: true, Principal: "alice"}, nil
+			}
+		}
+		h.SetAuthenticate(auth)
+	}
+	return nil
+}
+
+// verifC20Tracked reports whether a (lower-cased) response header name belongs
+// to the correlation / capability / rejection / session families C20 is about.
+func verifC20Tracked(lower string) bool {
+	return strings.HasPrefix(lower, "vgi-") || strings.HasPrefix(lower, "x-vgi-") ||
+		lower == "x-request-id" || lower == "www-authenticate" || lower == "retry-after"
+}
+
+// VerifC20Tracked is verifC20Tracked for the harness.
+func VerifC20Tracked(lower string) bool { return verifC20Tracked(lower) }
+
+func verifC20Names(hdr http.Header, into map[string]bool) {
+	for k := range hdr {
+		l := strings.ToLower(k)
+		if verifC20Tracked(l) {
+			into[l] = true
+		}
+	}
+}
+
+// VerifC20SplitExpose parses an Access-Control-Expose-Headers value into
+// lower-cased names.
+func VerifC20SplitExpose(v string) []string {
+	var out []string
+	for _, p := range strings.Split(v, ",") {
+		p = strings.ToLower(strings.TrimSpace(p))
+		if p != "" {
+			out = append(out, p)
+		}
+	}
+	return out
+}
+
+// verifC20Point returns, for one lattice point, (emitted, exposed): the tracked
+// header names the real writer functions put on a response under that
+// configuration, and the names addCorsHeaders lists as exposed.
+func verifC20Point(t VerifC20Toggles) (map[string]bool, map[string]bool) {
+	srv := NewServer()
+	h := NewHttpServer(srv)
+	if err := VerifC20Apply(srv, h, t, nil, nil, nil); err != nil {
+		panic(err)
+	}
+	emitted := map[string]bool{strings.ToLower(requestIDHeader): true} // ServeHTTP's first statement
+	newReq := func(body string) *http.Request {
+		return httptest.NewRequest("POST", "/u", strings.NewReader(body))
+	}
+	// capability headers
+	rec := httptest.NewRecorder()
+	h.addCapabilityHeaders(rec, false)
+	verifC20Names(rec.Header(), emitted)
+	// application-error marker
+	rec = httptest.NewRecorder()
+	h.writeArrow(rec, http.StatusInternalServerError, []byte{0})
+	verifC20Names(rec.Header(), emitted)
+	// negotiated response compression, exactly as ServeHTTP wires it
+	if producible := h.producibleResponseEncodings(); len(producible) > 0 {
+		if enc, custom := chooseResponseEncoding("zstd", "", producible); enc != "" {
+			rec = httptest.NewRecorder()
+			cw := &compressResponseWriter{ResponseWriter: rec, encoderLevel: h.zstdEncoderLevel, encoding: enc, useCustomHeader: custom}
+			h.writeArrow(cw, http.StatusOK, []byte{0})
+			cw.finish()
+			verifC20Names(rec.Header(), emitted)
+		}
+	}
+	// authenticator rejections: 401 and 503
+	if h.authenticateFunc != nil {
+		keep := h.authenticateFunc
+		h.authenticateFunc = func(*http.Request) (*AuthContext, error) {
+			return nil, &AuthFailure{Reason: AuthReasonUnauthorized}
+		}
+		rec = httptest.NewRecorder()
+		h.authenticate(rec, newReq(""))
+		verifC20Names(rec.Header(), emitted)
+		h.authenticateFunc = func(*http.Request) (*AuthContext, error) { return nil, NewAuthUnavailable("down") }
+		rec = httptest.NewRecorder()
+		h.authenticate(rec, newReq(""))
+		verifC20Names(rec.Header(), emitted)
+		// introspection refusals (rate limit / resolver outage) for an allowed caller
+		h.authenticateFunc = func(*http.Request) (*AuthContext, error) {
+			return &AuthContext{Domain: "verif", Authenticated: true, Principal: VerifC20IntrospectorPrincipal}, nil
+		}
+		rec = httptest.NewRecorder()
+		h.handleIntrospectToken(rec, newReq(`{"token":"opaque"}`))
+		verifC20Names(rec.Header(), emitted)
+		h.authenticateFunc = keep
+	}
+	// sticky session headers on a session-opening / session-closing response
+	cleanup, _ := h.installStickyOnRequestNoCtx(newReq(""), Anonymous())
+	if cleanup != nil && cleanup.sink != nil {
+		cleanup.sink.mintedToken = "t"
+		cleanup.sink.closed = true
+		rec = httptest.NewRecorder()
+		writeStickyResponseHeaders(rec, cleanup.sink)
+		verifC20Names(rec.Header(), emitted)
+	}
+	// the CORS expose list
+	exposed := map[string]bool{}
+	h.SetCorsOrigins("*")
+	rec = httptest.NewRecorder()
+	h.addCorsHeaders(rec, nil, false)
+	for _, n := range VerifC20SplitExpose(rec.Header().Get("Access-Control-Expose-Headers")) {
+		exposed[n] = true
+	}
+	if h.stickyRegistry != nil {
+		h.stickyRegistry.stopReaper()
+	}
+	return emitted, exposed
+}
+
+func init() {
+	verifConstProviders = append(verifConstProviders, func() []VerifConst {
+		old := slog.Default()
+		slog.SetDefault(slog.New(slog.NewTextHandler(io.Discard, nil)))
+		defer slog.SetDefault(old)
+
+		lc := strings.ToLower
+		// lattice points tabulated at build time: every configuration with at
+		// most two toggles on, and every configuration with at most two off
+		full := uint32(1)<<VerifC20NumToggles - 1
+		var points []uint32
+		seen := map[uint32]bool{}
+		add := func(m uint32) {
+			if !seen[m] {
+				seen[m] = true
+				points = append(points, m)
+			}
+		}
+		add(0)
+		for i := uint(0); i < VerifC20NumToggles; i++ {
+			add(1 << i)
+			for j := i + 1; j < VerifC20NumToggles; j++ {
+				add(1<<i | 1<<j)
+			}
+		}
+		for _, m := range append([]uint32(nil), points...) {
+			add(full &^ m)
+		}
+		emit := make([]map[string]bool, len(points))
+		expo := make([]map[string]bool, len(points))
+		all := map[string]bool{}
+		for i, m := range points {
+			emit[i], expo[i] = verifC20Point(VerifC20FromMask(m))
+			for k := range emit[i] {
+				all[k] = true
+			}
+			for k := range expo[i] {
+				all[k] = true
+			}
+		}
+		universe := make([]string, 0, len(all))
+		for k := range all {
+			universe = append(universe, k)
+		}
+		sort.Strings(universe)
+		if len(universe) > 32 {
+			panic("verif_c20: header universe exceeds 32 names")
+		}
+		idx := map[string]uint{}
+		for i, k := range universe {
+			idx[k] = uint(i)
+		}
+		mask := func(s map[string]bool) uint32 {
+			var v uint32
+			for k := range s {
+				v |= 1 << idx[k]
+			}
+			return v
+		}
+		be := func(v uint32) string { return string([]byte{byte(v >> 24), byte(v >> 16), byte(v >> 8), byte(v)}) }
+		// row = lattice mask (2 bytes BE) ++ emitted mask (4 BE) ++ exposed mask (4 BE)
+		rows := make([]string, len(points))
+		for i, m := range points {
+			rows[i] = be(m)[2:] + be(mask(emit[i])) + be(mask(expo[i]))
+		}
+		// prefix of the per-session echo headers, recovered from what the real
+		// writer emits for the probe name
+		rec := httptest.NewRecorder()
+		writeStickyResponseHeaders(rec, &stickySink{mintedToken: "t", echoHeaders: map[string]string{"Probe-Echo": "v"}})
+		echoPrefix := ""
+		for k := range rec.Header() {
+			if l := lc(k); strings.HasSuffix(l, "probe-echo") {
+				echoPrefix = strings.TrimSuffix(l, "probe-echo")
+			}
+		}
+		return []VerifConst{
+			verifNum("c20_max_rid_len", maxRequestIDLength),
+			verifNum("c20_mint_len", int64(len(newRequestID()))),
+			verifNum("c20_num_toggles", VerifC20NumToggles),
+			verifBytes("h_request_id", lc(requestIDHeader)),
+			verifBytes("h_supported_encodings", lc(supportedEncodingsHeader)),
+			verifBytes("h_externalization_enabled", lc(externalizationEnabledHeader)),
+			verifBytes("h_max_request_bytes", lc(maxRequestBytesHeader)),
+			verifBytes("h_max_response_bytes", lc(maxResponseBytesHeader)),
+			verifBytes("h_max_ext_response_bytes", lc(maxExternalizedResponseBytesHeader)),
+			verifBytes("h_upload_url_support", lc(uploadURLHeader)),
+			verifBytes("h_max_upload_bytes", lc(maxUploadBytesHeader)),
+			verifBytes("h_proof_required", lc(ProofRequiredHeader)),
+			verifBytes("h_introspect_enabled", lc(IntrospectEnabledHeader)),
+			verifBytes("h_sticky_enabled", lc(stickyEnabledHeader)),
+			verifBytes("h_sticky_default_ttl", lc(stickyDefaultTTLHeader)),
+			verifBytes("h_sticky_echo_headers", lc(stickyEchoHeadersHeader)),
+			verifBytes("h_session", lc(stickySessionHeader)),
+			verifBytes("h_session_close", lc(stickySessionCloseHeader)),
+			verifBytes("h_echo_prefix", echoPrefix),
+			verifBytes("h_echo_probe", echoPrefix+"probe-echo"),
+			verifBytes("h_www_authenticate", "www-authenticate"),
+			verifBytes("h_auth_reason", lc(HeaderAuthReason)),
+			verifBytes("h_auth_proxy_required", lc(HeaderAuthProxyRequired)),
+			verifBytes("h_rpc_error", lc(rpcErrorHeader)),
+			verifBytes("h_content_encoding", lc(customContentEncodingHeader)),
+			verifBytes("h_retry_after", "retry-after"),
+			verifList("c20_universe", universe),
+			verifList("c20_table", rows),
+		}
+	})
+}
